@@ -34,7 +34,7 @@ def run(ctx: Ctx) -> None:
     if r.violated:
         raise MachineryError(f"J2O_Determinism: {r.violated} violated")
     cleanup_tlc(r)
-    for d in ("global_counter", "hash_order"):
+    for d in ("global_counter", "hash_order", "leak_in_build"):
         rd = run_tlc("MC_Determinism", f"MC_Determinism_{d}.cfg", timeout=600, coverage=False)
         ctx.extra[f"selftest_{d}_rejected"] = bool(rd.violated)
         if not rd.violated:
@@ -54,7 +54,7 @@ def run(ctx: Ctx) -> None:
     cands = [it["i"] for it in idx["result"] if not it["key"].startswith("examples") or "onnx_functions" in it["key"]]
     rng.shuffle(cands)
     corpus_kinds = [f"corpus:{i}" for i in cands[: (8 if ctx.quick else 200)]]
-    all_kinds = sorted({k for h in hists[: (8 if ctx.quick else 150)] for k in h} | set(extra_kinds)) + corpus_kinds
+    all_kinds = sorted({k for h in hists[: (8 if ctx.quick else 150)] for k in h} | set(extra_kinds) | {"fn_flaky_ok", "fn_flaky_fail"}) + corpus_kinds
     # reference: every kind alone, fresh process, hash seed 0
     ref_tasks = [{"fn": "harness.checks.c14:_hist_job", "args": {"history": [k]}, "timeout": 900} for k in all_kinds]
     ref_res = run_tasks(ref_tasks, nworkers=14, timeout=900, env={"PYTHONHASHSEED": "0"}, fresh_each=True)
@@ -67,6 +67,11 @@ def run(ctx: Ctx) -> None:
     ctx.extra["reference_kinds"] = len(ref)
     nh = 8 if ctx.quick else 150
     chosen = hists[:nh]
+    # histories in which a request shares a function target with an EARLIER FAILED request are always replayed
+    # (the neighbourhood of the conversion-scoped "body being traced" mark)
+    shared_target = [h for h in hists if any(h[i] == "fn_flaky_fail" and "fn_flaky_ok" in h[i + 1:] for i in range(len(h)))]
+    chosen += [h for h in shared_target if h not in chosen][: (3 if ctx.quick else 40)]
+    chosen.append(["fn_flaky_ok", "fn_flaky_fail", "fn_flaky_ok"])
     # splice the extra / corpus kinds into histories so that every kind appears after some history
     pool_kinds = extra_kinds + corpus_kinds
     if ctx.quick:
